@@ -32,6 +32,10 @@ struct Ctx {
     fresh: std::cell::Cell<usize>,
     binds: std::cell::RefCell<Vec<(String, String)>>, // pending Outcome binds (name, expr)
     uninit: std::cell::RefCell<BTreeSet<String>>,     // `let x;` declared without initialiser
+    ret_result: bool,         // function returns Result<_, Error>
+    err_ty: String,           // Lean name of the module's `Error` enum
+    group_vars: std::cell::RefCell<BTreeSet<String>>, // variables known to hold a `G<P>` (for `==`, `*` on group elements)
+    ns: String,               // Lean namespace of the function being translated
 }
 
 fn ty_name(t: &Type, cx: &Ctx) -> R<String> {
@@ -50,6 +54,22 @@ fn ty_name(t: &Type, cx: &Ctx) -> R<String> {
                 "Base" => cx.mono.clone().ok_or_else(|| "P::Base outside a monomorphised impl".to_string()),
                 "G" => Ok(format!("G {}", cx.mono.clone().ok_or("generic G without instantiation")?)),
                 "AffineG" => Ok(format!("AffineG {}", cx.mono.clone().ok_or("generic AffineG without instantiation")?)),
+                "Result" => {
+                    if let PathArguments::AngleBracketed(a) = &last.arguments {
+                        if let Some(GenericArgument::Type(t)) = a.args.first() {
+                            return Ok(format!("Except {} ({})", cx.err_ty, ty_name(t, cx)?));
+                        }
+                    }
+                    Err("Result without argument".into())
+                }
+                "Vec" => {
+                    if let PathArguments::AngleBracketed(a) = &last.arguments {
+                        if let Some(GenericArgument::Type(t)) = a.args.first() {
+                            return Ok(format!("List ({})", ty_name(t, cx)?));
+                        }
+                    }
+                    Err("Vec without argument".into())
+                }
                 "Option" => {
                     if let PathArguments::AngleBracketed(a) = &last.arguments {
                         if let Some(GenericArgument::Type(t)) = a.args.first() {
@@ -78,6 +98,24 @@ fn path_str(p: &Path) -> String {
     p.segments.iter().map(|s| s.ident.to_string()).collect::<Vec<_>>().join("::")
 }
 
+/// methods whose model counterpart is `Outcome`-valued (they contain a panic site or call one that does)
+const OUTCOME_METHODS: &[&str] = &["final_exponentiation_last_chunk", "final_exp_last_chunk", "final_exponentiation", "final_exp"];
+
+/// is this expression known to be a group element `G<P>`?  (drives `==`/`!=` → `G.eq`, `*` → `G.mul`)
+fn is_group(cx: &Ctx, e: &Expr) -> bool {
+    match e {
+        Expr::Paren(p) => is_group(cx, &p.expr),
+        Expr::Group(g) => is_group(cx, &g.expr),
+        Expr::Reference(r) => is_group(cx, &r.expr),
+        Expr::Unary(u) => is_group(cx, &u.expr),
+        Expr::Path(p) => cx.group_vars.borrow().contains(&path_str(&p.path)),
+        Expr::Binary(b) => matches!(b.op, BinOp::Add(_) | BinOp::Sub(_) | BinOp::Mul(_)) && is_group(cx, &b.left),
+        Expr::Call(c) => matches!(&*c.func, Expr::Path(p) if { let s = path_str(&p.path); s == "G::zero" || s == "G::one" }),
+        Expr::Struct(s) => path_str(&s.path) == "G",
+        _ => false,
+    }
+}
+
 fn expr(cx: &Ctx, e: &Expr) -> R<String> {
     Ok(match e {
         Expr::Paren(p) => format!("({})", expr(cx, &p.expr)?),
@@ -92,7 +130,13 @@ fn expr(cx: &Ctx, e: &Expr) -> R<String> {
         Expr::Binary(b) => {
             let l = expr(cx, &b.left)?;
             let r = expr(cx, &b.right)?;
+            let grp = is_group(cx, &b.left) || is_group(cx, &b.right);
             match b.op {
+                BinOp::Mul(_) if grp => format!("(Sm9.G.mul {} {})", paren(&l), paren(&r)),
+                BinOp::Eq(_) if grp => format!("(Sm9.G.eq {} {})", paren(&l), paren(&r)),
+                BinOp::Ne(_) if grp => format!("(!Sm9.G.eq {} {})", paren(&l), paren(&r)),
+                BinOp::BitAnd(_) => format!("({} &&& {})", l, r),    // integers only (u128 loop constants)
+                BinOp::Shl(_) => format!("({} <<< {})", l, r),
                 BinOp::Add(_) => format!("({} + {})", l, r),
                 BinOp::Sub(_) => format!("({} - {})", l, r),
                 BinOp::Mul(_) => format!("({} * {})", l, r),
@@ -108,6 +152,8 @@ fn expr(cx: &Ctx, e: &Expr) -> R<String> {
             match s.as_str() {
                 "self" => "self".into(),
                 "None" => "none".into(),
+                "u128::BITS" => "128".into(),
+                _ if s.starts_with("Error::") => format!("{}.{}", cx.err_ty, &s[7..]),
                 _ => {
                     if s.chars().all(|c| c.is_ascii_uppercase() || c.is_ascii_digit() || c == '_') {
                         format!("Consts.{}", s)     // SM9_A3 etc.
@@ -159,6 +205,15 @@ fn expr(cx: &Ctx, e: &Expr) -> R<String> {
             format!("(if {} then {} else {})", c, t, el)
         }
         Expr::Block(b) => format!("({})", block(cx, &b.block, 0, None)?),
+        Expr::Index(ix) => {
+            if !cx.outcome { return Err("indexing outside an Outcome function".into()); }
+            let base = expr(cx, &ix.expr)?;
+            let i = expr(cx, &ix.index)?;
+            let k = cx.fresh.get(); cx.fresh.set(k + 1);
+            let v = format!("u{}", k);
+            cx.binds.borrow_mut().push((v.clone(), format!("Sm9.G2Prepared.idx {} {}", paren(&base), paren(&i))));
+            v
+        }
         other => return Err(format!("unsupported expr: {}", quote::quote!(#other).to_string().chars().take(80).collect::<String>())),
     })
 }
@@ -170,6 +225,21 @@ fn call(cx: &Ctx, c: &ExprCall) -> R<String> {
     let f2 = f.replace("Self::", &format!("{}::", cx.self_ty)).replace("P::Base::", &format!("{}::", cx.mono.clone().unwrap_or_default()));
     Ok(match (f2.as_str(), args.len()) {
         ("Some", 1) => format!("(some {})", args[0]),
+        ("Ok", 1) if cx.ret_result => format!("(Except.ok {})", args[0]),
+        ("Err", 1) if cx.ret_result => format!("(Except.error {})", args[0]),
+        ("Fr::one", 0) => "(1 : Fr)".into(),
+        ("P::coeff_b", 0) => format!("(GroupParams.coeff_b : {})", cx.mono.clone().ok_or("P::coeff_b outside a monomorphised impl")?),
+        ("P::check_order", 0) => format!("(GroupParams.check_order {})", cx.mono.clone().ok_or("P::check_order outside a monomorphised impl")?),
+        ("Vec::new", 0) => "[]".into(),
+        ("bit", 2) => format!("(Sm9.bit {} {})", paren(&args[0]), paren(&args[1])),
+        ("G2Prepared::from", 1) => {
+            // `From<G2> for G2Prepared` has panic sites: Outcome-valued in the model
+            if !cx.outcome { return Err("Outcome call outside an Outcome function".into()); }
+            let k = cx.fresh.get(); cx.fresh.set(k + 1);
+            let v = format!("u{}", k);
+            cx.binds.borrow_mut().push((v.clone(), format!("Sm9.G2Prepared.from_ {}", paren(&args[0]))));
+            v
+        }
         ("Fq::zero", 0) => "(0 : Fq)".into(),
         ("Fq::one", 0) => "(1 : Fq)".into(),
         ("Fq2::zero", 0) => "Sm9.Fq2.zero".into(),
@@ -210,12 +280,25 @@ fn method_call(cx: &Ctx, m: &ExprMethodCall) -> R<String> {
         let inner = expr(cx, &m.receiver)?;
         let k = cx.fresh.get(); cx.fresh.set(k + 1);
         let v = format!("u{}", k);
-        cx.binds.borrow_mut().push((v.clone(), inner));
+        cx.binds.borrow_mut().push((v.clone(), format!("Outcome.unwrap {}", paren(&inner))));
         return Ok(v);
     }
     let recv = expr(cx, &m.receiver)?;
     if name == "map" && m.args.len() == 1 {
         if let Expr::Closure(c) = &m.args[0] {
+            // `.map(|a| a.f())` with an Outcome-valued `f`: a panic inside the closure propagates
+            if let Expr::MethodCall(inner) = &*c.body {
+                if OUTCOME_METHODS.contains(&inner.method.to_string().as_str()) && inner.args.is_empty() {
+                    if !cx.outcome { return Err("Outcome closure outside an Outcome function".into()); }
+                    let a = match c.inputs.first() { Some(Pat::Ident(i)) => ident(&i.ident.to_string()), _ => return Err("closure pattern".into()) };
+                    let sub = Ctx { outcome: false, binds: Default::default(), ..cx.clone() };
+                    let callee = expr(&sub, &inner.receiver)?;
+                    let k = cx.fresh.get(); cx.fresh.set(k + 1);
+                    let v = format!("u{}", k);
+                    cx.binds.borrow_mut().push((v.clone(), format!("(match {} with | none => pure none | some {} => do let v ← {}.{}; pure (some v))", recv, a, paren(&callee), inner.method)));
+                    return Ok(v);
+                }
+            }
             let ps: Vec<String> = c.inputs.iter().map(|p| match p { Pat::Ident(i) => ident(&i.ident.to_string()), _ => "_".into() }).collect();
             return Ok(format!("(Option.map (fun {} => {}) {})", ps.join(" "), expr(cx, &c.body)?, paren(&recv)));
         }
@@ -244,16 +327,37 @@ fn method_call(cx: &Ctx, m: &ExprMethodCall) -> R<String> {
             format!("({}.pow_u128 {})", recv, args[0])
         }
         ("point_pi1", 0) | ("point_pi2", 0) | ("g_tangent", 0) => format!("(Sm9.G2m.{} {})", name, paren(&recv)),
-        ("eval_g_tangent", 1) | ("eval_g_line", 2) | ("q_power_frobenius", 1) | ("g_line", 1) | ("miller_loop", 1) if cx.self_ty == "G2" =>
+        ("eval_g_tangent", 1) | ("eval_g_line", 2) | ("q_power_frobenius", 1) | ("g_line", 1) =>
             format!("(Sm9.G2m.{} {} {})", name, paren(&recv), args.iter().map(|a| paren(a)).collect::<Vec<_>>().join(" ")),
         ("iter", 0) => recv,
         ("clone", 0) => recv,
+        ("is_empty", 0) => format!("{}.isEmpty", paren(&recv)),
+        ("leading_zeros", 0) => format!("(128 - Sm9.bitLen {})", paren(&recv)),     // on a `u128`
+        ("get_fq12", 3) => format!("(Sm9.G2Prepared.get_fq12 {})", args.iter().map(|a| paren(a)).collect::<Vec<_>>().join(" ")),
+        (n, _) if OUTCOME_METHODS.contains(&n) || n == "miller_loop" => {
+            if !cx.outcome { return Err("Outcome call outside an Outcome function".into()); }
+            let k = cx.fresh.get(); cx.fresh.set(k + 1);
+            let v = format!("u{}", k);
+            let callee = if n == "miller_loop" { if is_prepared(cx, &m.receiver) { "Sm9.G2Prepared.miller_loop".to_string() } else { "Sm9.G2m.miller_loop".to_string() } } else { format!("Sm9.Fq12.{}", n) };
+            cx.binds.borrow_mut().push((v.clone(), format!("{} {} {}", callee, paren(&recv), args.iter().map(|a| paren(a)).collect::<Vec<_>>().join(" ")).trim_end().to_string()));
+            v
+        }
         ("unitary_inverse", 0) | ("squared", 0) | ("double", 0) | ("triple", 0) | ("inverse", 0) | ("is_zero", 0)
         | ("div2", 0) | ("mul_by_nonresidue", 0) | ("to_affine", 0) | ("to_jacobian", 0) | ("real", 0) | ("imaginary", 0)
         | ("final_exponentiation_first_chunk", 0) => format!("{}.{}", paren(&recv), name),
         (_, n) if n > 0 => format!("({}.{} {})", paren(&recv), ident(&name), args.join(" ")),
         _ => format!("{}.{}", paren(&recv), ident(&name)),
     })
+}
+
+/// receiver of `.miller_loop(..)`: a `G2Prepared` (variable bound from `G2Prepared::from`, or `self` inside `impl G2Prepared`)
+fn is_prepared(cx: &Ctx, e: &Expr) -> bool {
+    match e {
+        Expr::Path(p) => { let s = path_str(&p.path); (s == "self" && cx.self_ty == "G2Prepared") || cx.group_vars.borrow().contains(&format!("prepared:{}", s)) }
+        Expr::Paren(p) => is_prepared(cx, &p.expr),
+        Expr::Reference(r) => is_prepared(cx, &r.expr),
+        _ => false,
+    }
 }
 
 fn paren(s: &str) -> String {
@@ -282,21 +386,36 @@ fn lhs_str(cx: &Ctx, e: &Expr) -> R<String> {
 /// emit pending Outcome binds in front of `line`
 fn flush(cx: &Ctx, pad: &str, out: &mut String) {
     for (v, e) in cx.binds.borrow_mut().drain(..) {
-        writeln!(out, "{}let {} ← Outcome.unwrap {}", pad, v, paren(&e)).unwrap();
+        writeln!(out, "{}let {} ← {}", pad, v, e).unwrap();
     }
 }
 
 fn assigned_vars(b: &Block, acc: &mut BTreeSet<String>, declared: &mut BTreeSet<String>) {
     for st in &b.stmts {
         match st {
-            Stmt::Local(l) => { if let Ok(p) = pat_str(&l.pat) { for v in p.replace(['(', ')', ','], " ").split_whitespace() { declared.insert(v.to_string()); } } }
+            Stmt::Local(l) => {
+                if let Some(init) = &l.init { if let Some(r) = mut_self_call(&init.expr) { if !declared.contains(&r) { acc.insert(r); } } }
+                if let Ok(p) = pat_str(&l.pat) { for v in p.replace(['(', ')', ','], " ").split_whitespace() { declared.insert(v.to_string()); } }
+            }
             Stmt::Expr(e, _) => assigned_in_expr(e, acc, declared),
             _ => {}
         }
     }
 }
+/// `p.g_tangent()` / `p.g_line(&q)` on a plain variable: `&mut self` methods of pairings.rs — the call also rebinds `p`
+fn mut_self_call(e: &Expr) -> Option<String> {
+    if let Expr::MethodCall(m) = e {
+        let n = m.method.to_string();
+        if n == "g_tangent" || n == "g_line" {
+            if let Expr::Path(p) = &*m.receiver { return Some(ident(&path_str(&p.path))); }
+        }
+    }
+    None
+}
+
 fn assigned_in_expr(e: &Expr, acc: &mut BTreeSet<String>, declared: &mut BTreeSet<String>) {
     match e {
+        Expr::MethodCall(m) if m.method == "push" => collect_lhs(&m.receiver, acc, declared),
         Expr::Assign(a) => { collect_lhs(&a.left, acc, declared); }
         Expr::Binary(b) if matches!(b.op, BinOp::AddAssign(_) | BinOp::SubAssign(_) | BinOp::MulAssign(_)) => collect_lhs(&b.left, acc, declared),
         Expr::If(i) => {
@@ -355,7 +474,13 @@ fn stmts(cx: &Ctx, ss: &[Stmt], ind: usize, tail: Option<&str>) -> R<String> {
                     }
                     let e = expr(cx, &init.expr)?;
                     flush(cx, &pad, &mut out);
-                    writeln!(out, "{}let {} := {}", pad, name, e).unwrap();
+                    if let Expr::Call(c) = &*init.expr { if let Expr::Path(p) = &*c.func { if path_str(&p.path) == "G2Prepared::from" { cx.group_vars.borrow_mut().insert(format!("prepared:{}", name)); } } }
+                    let declared_group = match &l.pat { Pat::Type(t) => { let ts = quote::quote!(#t).to_string(); ts.contains(": G <") || ts.ends_with(": G1") || ts.ends_with(": G2") } _ => false };
+                    if declared_group || is_group(cx, &init.expr) { cx.group_vars.borrow_mut().insert(name.clone()); } else { cx.group_vars.borrow_mut().remove(&name); }
+                    match mut_self_call(&init.expr) {
+                        Some(r) => writeln!(out, "{}let ({}, {}) := {}", pad, r, name, e).unwrap(),
+                        None => writeln!(out, "{}let {} := {}", pad, name, e).unwrap(),
+                    }
                 }
             }
         }
@@ -381,6 +506,12 @@ fn stmts(cx: &Ctx, ss: &[Stmt], ind: usize, tail: Option<&str>) -> R<String> {
                         flush(cx, &pad, &mut out);
                         writeln!(out, "{}let {} := {}", pad, l, v).unwrap();
                     }
+                }
+                Expr::MethodCall(m) if m.method == "push" && m.args.len() == 1 => {
+                    let l = lhs_str(cx, &m.receiver)?;
+                    let v = expr(cx, &m.args[0])?;
+                    flush(cx, &pad, &mut out);
+                    writeln!(out, "{}let {} := {} ++ [{}]", pad, l, l, v).unwrap();
                 }
                 Expr::Binary(b) if matches!(b.op, BinOp::AddAssign(_) | BinOp::SubAssign(_) | BinOp::MulAssign(_)) => {
                     let l = lhs_str(cx, &b.left)?;
@@ -427,17 +558,26 @@ fn stmts(cx: &Ctx, ss: &[Stmt], ind: usize, tail: Option<&str>) -> R<String> {
                     if acc.is_empty() { return Err("statement `if` without assignments or return".into()); }
                     let vars: Vec<String> = acc.into_iter().collect();
                     let tup = if vars.len() == 1 { vars[0].clone() } else { format!("({})", vars.join(", ")) };
-                    writeln!(out, "{}let {} :=", pad, tup).unwrap();
-                    writeln!(out, "{}  if {} then", pad, c).unwrap();
-                    out.push_str(&stmts(cx, &i.then_branch.stmts, ind + 4, Some(&tup))?);
+                    // branches are translated first: if any of them binds (a panic site inside), the whole `if` is monadic
+                    let mut parts: Vec<(Option<String>, String)> = vec![(Some(c.clone()), stmts(cx, &i.then_branch.stmts, ind + 4, Some("\u{1}"))?)];
                     let mut closed = false;
                     for (cnd, bk) in &else_chain {
-                        match cnd {
-                            Some(c2) => { writeln!(out, "\n{}  else if {} then", pad, c2).unwrap(); out.push_str(&stmts(cx, &bk.stmts, ind + 4, Some(&tup))?); }
-                            None => { writeln!(out, "\n{}  else", pad).unwrap(); out.push_str(&stmts(cx, &bk.stmts, ind + 4, Some(&tup))?); closed = true; }
+                        parts.push((cnd.clone(), stmts(cx, &bk.stmts, ind + 4, Some("\u{1}"))?));
+                        if cnd.is_none() { closed = true; }
+                    }
+                    let monadic = parts.iter().any(|(_, b)| b.contains('←'));
+                    let fin = if monadic { format!("pure {}", paren(&tup)) } else { tup.clone() };
+                    writeln!(out, "{}let {} {}", pad, tup, if monadic { "←" } else { ":=" }).unwrap();
+                    for (k, (cnd, body)) in parts.iter().enumerate() {
+                        let body = body.replace('\u{1}', &fin);
+                        let body = if monadic { format!("{}do\n{}", " ".repeat(ind + 4), body.lines().map(|l| format!("  {}", l)).collect::<Vec<_>>().join("\n")) } else { body };
+                        match (k, cnd) {
+                            (0, Some(c0)) => { writeln!(out, "{}  if {} then", pad, c0).unwrap(); out.push_str(&body); }
+                            (_, Some(c2)) => { writeln!(out, "\n{}  else if {} then", pad, c2).unwrap(); out.push_str(&body); }
+                            (_, None) => { writeln!(out, "\n{}  else", pad).unwrap(); out.push_str(&body); }
                         }
                     }
-                    if !closed { writeln!(out, "\n{}  else {}", pad, tup).unwrap(); } else { writeln!(out).unwrap(); }
+                    if !closed { writeln!(out, "\n{}  else {}", pad, fin).unwrap(); } else { writeln!(out).unwrap(); }
                 }
                 Expr::ForLoop(f) => {
                     let var = pat_str(&f.pat)?;
@@ -450,8 +590,15 @@ fn stmts(cx: &Ctx, ss: &[Stmt], ind: usize, tail: Option<&str>) -> R<String> {
                     if vars.is_empty() { return Err("for loop without assigned variables".into()); }
                     let tup = if vars.len() == 1 { vars[0].clone() } else { format!("({})", vars.join(", ")) };
                     flush(cx, &pad, &mut out);
-                    writeln!(out, "{}let {} := List.foldl (fun {} {} =>", pad, tup, tup, var).unwrap();
-                    out.push_str(&stmts(cx, &f.body.stmts, ind + 4, Some(&tup))?);
+                    let body = stmts(cx, &f.body.stmts, ind + 4, Some("\u{1}"))?;
+                    if body.contains('←') {
+                        // a panic site inside the loop body: monadic fold
+                        writeln!(out, "{}let {} ← List.foldlM (fun {} {} => do", pad, tup, tup, var).unwrap();
+                        out.push_str(&body.replace('\u{1}', &format!("pure {}", paren(&tup))));
+                    } else {
+                        writeln!(out, "{}let {} := List.foldl (fun {} {} =>", pad, tup, tup, var).unwrap();
+                        out.push_str(&body.replace('\u{1}', &tup));
+                    }
                     writeln!(out, ") {} {}", tup, paren(&it)).unwrap();
                 }
                 Expr::Match(m) if last => {
@@ -462,6 +609,13 @@ fn stmts(cx: &Ctx, ss: &[Stmt], ind: usize, tail: Option<&str>) -> R<String> {
                 }
                 other if last && semi.is_none() => {
                     let v = expr(cx, other)?;
+                    let tail_bind = { let b = cx.binds.borrow(); match b.last() { Some((bv, _)) if *bv == v && !cx.mut_self => true, _ => false } };
+                    if tail_bind {
+                        let (_, rhs) = cx.binds.borrow_mut().pop().unwrap();
+                        flush(cx, &pad, &mut out);
+                        write!(out, "{}{}", pad, rhs).unwrap();
+                        return Ok(out);
+                    }
                     flush(cx, &pad, &mut out);
                     write!(out, "{}{}", pad, wrap_result(cx, v)).unwrap();
                     return Ok(out);
@@ -492,8 +646,9 @@ fn for_iter(cx: &Ctx, e: &Expr) -> R<String> {
     // SM9_LOOP_COUNT.iter()  |  (0..bits).rev()  |  0..2  |  U256::from(other).bits_without_leading_zeros()
     let s = quote::quote!(#e).to_string().replace(' ', "");
     if s == "SM9_LOOP_COUNT.iter()" { return Ok("Consts.SM9_LOOP_COUNT".into()); }
-    if s == "(0..bits).rev()" { return Ok("loopIdx".into()); }
+    if s == "(0..bits).rev()" { return Ok("(List.range bits).reverse".into()); }
     if s == "0..2" { return Ok("[0, 1]".into()); }
+    if s == "0..4" { return Ok("[0, 1, 2, 3]".into()); }
     if s == "U256::from(other).bits_without_leading_zeros()" { return Ok("(bitsMSB other.val)".into()); }
     let _ = cx;
     Err(format!("loop iterator {}", s))
@@ -506,20 +661,50 @@ fn match_expr(cx: &Ctx, m: &ExprMatch, ind: usize) -> R<String> {
         o => expr(cx, o)?,
     };
     let mut s = format!("{}match {} with\n", pad, scrut);
+    fn pat_elem(cx: &Ctx, p: &Pat) -> R<String> {
+        match p {
+            Pat::Lit(l) => expr(cx, &Expr::Lit(ExprLit { attrs: vec![], lit: l.lit.clone() })),
+            Pat::Wild(_) => Ok("_".to_string()),
+            Pat::TupleStruct(ts) if path_str(&ts.path) == "Some" => Ok(format!("some {}", pat_str(&ts.elems[0])?)),
+            Pat::Ident(i) if i.ident == "None" => Ok("none".into()),
+            Pat::Path(pp) if path_str(&pp.path) == "None" => Ok("none".into()),
+            _ => Err("match pattern".to_string()),
+        }
+    }
+    fn pat_top(cx: &Ctx, p: &Pat) -> R<Vec<String>> {
+        match p {
+            Pat::Or(o) => { let mut v = vec![]; for c in &o.cases { v.extend(pat_top(cx, c)?); } Ok(v) }
+            Pat::Tuple(t) => { let v: R<Vec<String>> = t.elems.iter().map(|p| pat_elem(cx, p)).collect(); Ok(vec![v?.join(", ")]) }
+            other => Ok(vec![pat_elem(cx, other)?]),
+        }
+    }
     for arm in &m.arms {
-        let p = match &arm.pat {
-            Pat::Tuple(t) => { let v: R<Vec<String>> = t.elems.iter().map(|p| match p { Pat::Lit(l) => expr(cx, &Expr::Lit(ExprLit { attrs: vec![], lit: l.lit.clone() })), Pat::Wild(_) => Ok("_".to_string()), Pat::TupleStruct(ts) if path_str(&ts.path) == "Some" => Ok(format!("some {}", pat_str(&ts.elems[0])?)), Pat::Ident(i) if i.ident == "None" => Ok("none".into()), _ => Err("match pattern".to_string()) }).collect(); v?.join(", ") }
-            Pat::Lit(l) => expr(cx, &Expr::Lit(ExprLit { attrs: vec![], lit: l.lit.clone() }))?,
-            Pat::Wild(_) => "_".into(),
-            _ => return Err("match pattern".into()),
-        };
+        let pats = pat_top(cx, &arm.pat)?;
         let body = match &*arm.body {
             Expr::Block(b) => stmts(cx, &b.block.stmts, ind + 4, None)?,
-            o => format!("{}    {}", pad, wrap_result(cx, expr(cx, o)?)),
+            o => {
+                // an arm is its own scope for hoisted binds
+                let saved: Vec<(String, String)> = cx.binds.borrow_mut().drain(..).collect();
+                let v = expr(cx, o)?;
+                let mut b = String::new();
+                let ipad = format!("{}    ", pad);
+                let tail_bind = { let bs = cx.binds.borrow(); matches!(bs.last(), Some((bv, _)) if *bv == v) };
+                let last = if tail_bind { cx.binds.borrow_mut().pop().unwrap().1 } else { wrap_result(cx, v) };
+                flush(cx, &ipad, &mut b);
+                write!(b, "{}{}", ipad, last).unwrap();
+                cx.binds.borrow_mut().extend(saved);
+                b
+            }
         };
-        writeln!(s, "{}| {} =>\n{}", pad, p, body).unwrap();
+        for p in pats { writeln!(s, "{}| {} =>\n{}", pad, p, body).unwrap(); }
     }
     Ok(s.trim_end().to_string())
+}
+
+/// does the body call something whose model counterpart is `Outcome`-valued?
+fn calls_outcome(b: &Block) -> bool {
+    let s = quote::quote!(#b).to_string().replace(' ', "");
+    s.contains(".miller_loop(") || s.contains("G2Prepared::from(") || OUTCOME_METHODS.iter().any(|m| s.contains(&format!(".{}()", m)))
 }
 
 fn contains_unwrap(b: &Block) -> bool {
@@ -538,6 +723,9 @@ fn contains_unwrap(b: &Block) -> bool {
 
 struct Target { file: &'static str, self_ty: &'static str, lean_ns: &'static str, mono: Option<&'static str>, fns: &'static [&'static str] }
 
+/// Lean name of the `Error` enum of a source file
+fn err_ty_of(file: &str) -> &'static str { match file { "groups.rs" => "GroupError", "lib.rs" => "CurveError", _ => "FieldError" } }
+
 const TARGETS: &[Target] = &[
     Target { file: "fields/fq2.rs", self_ty: "Fq2", lean_ns: "Fq2", mono: None, fns: &["new", "scale", "unitary_inverse", "mul_by_nonresidue", "div2", "i", "neg_inplace", "sub_inplace", "add_inplace", "mul_inplace", "zero", "is_zero", "one", "double", "triple", "squared", "inverse"] },
     Target { file: "fields/fq4.rs", self_ty: "Fq4", lean_ns: "Fq4", mono: None, fns: &["new", "scale", "scale_fq", "mul_by_nonresidue", "unitary_inverse", "mul_1", "mul_inplace", "sub_inplace", "add_inplace", "neg_inplace", "zero", "is_zero", "one", "double", "triple", "squared", "inverse", "frobenius_map"] },
@@ -546,7 +734,11 @@ const TARGETS: &[Target] = &[
     Target { file: "groups.rs", self_ty: "G", lean_ns: "G2", mono: Some("Fq2"), fns: &["eq", "to_affine", "zero", "is_zero", "double", "add", "neg", "sub", "mul"] },
     Target { file: "pairings.rs", self_ty: "Fq12", lean_ns: "Fq12", mono: None, fns: &["final_exponentiation_first_chunk", "final_exponentiation_last_chunk", "final_exp_last_chunk"] },
     Target { file: "pairings.rs", self_ty: "G2", lean_ns: "G2m", mono: None, fns: &["point_pi1", "point_pi2", "eval_g_tangent", "eval_g_line", "q_power_frobenius", "g_line", "g_tangent", "miller_loop"] },
-    Target { file: "pairings.rs", self_ty: "G2Prepared", lean_ns: "G2Prepared", mono: None, fns: &["get_fq12"] },
+    Target { file: "pairings.rs", self_ty: "G2Prepared", lean_ns: "G2Prepared", mono: None, fns: &["get_fq12", "from", "miller_loop"] },
+    Target { file: "pairings.rs", self_ty: "Fq12", lean_ns: "Fq12", mono: None, fns: &["final_exponentiation", "final_exp"] },
+    Target { file: "pairings.rs", self_ty: "", lean_ns: "Pairings", mono: None, fns: &["pairing", "fast_pairing", "bit"] },
+    Target { file: "groups.rs", self_ty: "AffineG", lean_ns: "AffineG1", mono: Some("Fq"), fns: &["new", "to_jacobian"] },
+    Target { file: "groups.rs", self_ty: "AffineG", lean_ns: "AffineG2", mono: Some("Fq2"), fns: &["new", "to_jacobian"] },
 ];
 
 fn impl_self_name(im: &ItemImpl) -> Option<String> {
@@ -566,6 +758,17 @@ fn main() {
         let file = match parse_file(&text) { Ok(f) => f, Err(e) => { report.insert(format!("{}::<file>", t.file), format!("parse error: {}", e)); continue; } };
         let mut found: BTreeSet<String> = BTreeSet::new();
         for it in &file.items {
+            if let (Item::Fn(f), "") = (it, t.self_ty) {
+                let name = f.sig.ident.to_string();
+                if !t.fns.contains(&name.as_str()) || found.contains(&name) { continue; }
+                let m = ImplItemFn { attrs: vec![], vis: f.vis.clone(), defaultness: None, sig: f.sig.clone(), block: (*f.block).clone() };
+                let key = format!("{}.{}", t.lean_ns, name);
+                match translate_fn(t, &m) {
+                    Ok((text, params, arms)) => { found.insert(name.clone()); defs.push_str(&text); defs.push('\n'); report.insert(key, "translated".into()); emitted.push((t.lean_ns.to_string(), name, params, arms)); }
+                    Err(e) => { report.insert(key, format!("skipped: {}", e)); }
+                }
+                continue;
+            }
             let Item::Impl(im) = it else { continue };
             if impl_self_name(im).as_deref() != Some(t.self_ty) { continue; }
             for ii in &im.items {
@@ -607,11 +810,14 @@ fn write_if_changed(path: &str, text: &str) {
 
 fn translate_fn(t: &Target, m: &ImplItemFn) -> R<(String, Vec<String>, bool)> {
     let name = m.sig.ident.to_string();
-    let self_lean = match t.self_ty { "G" => format!("G {}", t.mono.unwrap()), "G2" => "G2".to_string(), o => o.to_string() };
-    let ret_option = match &m.sig.output { ReturnType::Type(_, ty) => quote::quote!(#ty).to_string().starts_with("Option"), _ => false };
+    let self_lean = match t.self_ty { "G" => format!("G {}", t.mono.unwrap()), "AffineG" => format!("AffineG {}", t.mono.unwrap()), "G2" => "G2".to_string(), o => o.to_string() };
+    let ret_s = match &m.sig.output { ReturnType::Type(_, ty) => quote::quote!(#ty).to_string(), _ => String::new() };
+    let ret_option = ret_s.starts_with("Option");
+    let ret_result = ret_s.starts_with("Result");
     let mut_self = m.sig.inputs.iter().any(|a| matches!(a, FnArg::Receiver(r) if r.mutability.is_some() && r.reference.is_some()));
-    let outcome = contains_unwrap(&m.block);
-    let cx = Ctx { self_ty: self_lean.clone(), mono: t.mono.map(|s| s.to_string()), ret_option, outcome, mut_self, fresh: std::cell::Cell::new(0), binds: Default::default(), uninit: Default::default() };
+    let outcome = contains_unwrap(&m.block) || calls_outcome(&m.block) || (t.self_ty == "G2Prepared" && name == "miller_loop");
+    let cx = Ctx { self_ty: self_lean.clone(), mono: t.mono.map(|s| s.to_string()), ret_option, outcome, mut_self, fresh: std::cell::Cell::new(0), binds: Default::default(), uninit: Default::default(),
+                   ret_result, err_ty: err_ty_of(t.file).to_string(), group_vars: Default::default(), ns: t.lean_ns.to_string() };
     let mut params = vec![];
     let mut pnames = vec![];
     for a in &m.sig.inputs {
@@ -619,7 +825,9 @@ fn translate_fn(t: &Target, m: &ImplItemFn) -> R<(String, Vec<String>, bool)> {
             FnArg::Receiver(_) => { params.push(format!("(self : {})", self_lean)); pnames.push("self".to_string()); }
             FnArg::Typed(p) => {
                 let n = pat_str(&p.pat)?;
-                params.push(format!("({} : {})", n, ty_name(&p.ty, &cx)?));
+                let tl = ty_name(&p.ty, &cx)?;
+                if tl.starts_with("G ") || tl == "G1" || tl == "G2" { cx.group_vars.borrow_mut().insert(n.clone()); }
+                params.push(format!("({} : {})", n, tl));
                 pnames.push(n);
             }
         }
